@@ -203,9 +203,10 @@ const (
 
 func body() {
 	r = ev.Start("C03", "fault_enumeration")
-	r.Rule = "complete enumeration of (replication n in 1..4) x (coordinator = owner position 0..n-1 or a non-owner) x (level any|one|quorum|all) x (per remote owner: stored | retryable failure + handoff accepts | retryable failure + handoff refuses | permanent rejection | queue non-empty + enqueue accepted | queue non-empty + enqueue refused | no answer; per local owner: stored | store error | shard missing->created->stored | no answer) x (every arrival order of the answering owners; for n=4 one seeded order per tuple in quick, all in thorough). Seeded secondary choices (not part of the tuple): error texts, and whether an unanswered owner stores or fails once released after the write returned. Non-trivial: at least one owner outcome other than stored; distinct by the full tuple."
+	r.Rule = "complete enumeration of (replication n in 1..4) x (coordinator = owner position 0..n-1 or a non-owner) x (level any|one|quorum|all) x (per remote owner: stored | retryable failure + handoff accepts | retryable failure + handoff refuses | permanent rejection | queue non-empty + enqueue accepted | queue non-empty + enqueue refused | no answer; per local owner: stored | store error | shard missing->created->stored | shard missing->created->retried write rejected | no answer) x (every arrival order of the answering owners; for n=4 one seeded order per tuple in quick, all in thorough). Seeded secondary choices (not part of the tuple): error texts, and whether an unanswered owner stores or fails once released after the write returned. Non-trivial: at least one owner outcome other than stored; distinct by the full tuple. Wire segment: the real ShardWriter (pool of 1-3 streams, 80 ms timeout) against a scripted owner, 1-5 concurrent clients, every write with a unique id answered stored | rejected | nothing until the call returned (then late stored / late rejected); what WriteShard reports for id i must be the owner's answer to id i."
 	r.Assumptions = []string{
-		"MetaClient, TSDBStore, ShardWriter and HintedHandoff are doubles: 'stored' means the double acknowledged a write that carried exactly the shard's points; 'durably queued' means the HintedHandoff double accepted the enqueue (queue durability itself is C04)",
+		"wire segment: the scripted owner speaks the cluster write protocol itself (no coordinator.Service); a late answer is released only after the timed-out call returned, so the 80 ms timeout never decides a verdict; an error reported for a write the owner stored is not judged (the property's direction is success => stored)",
+		"MetaClient, TSDBStore, ShardWriter and HintedHandoff are doubles (main enumeration): 'stored' means the double acknowledged a write that carried exactly the shard's points; 'durably queued' means the HintedHandoff double accepted the enqueue (queue durability itself is C04)",
 		"one shard group with one shard; three points that all map to it; AllowOutOfOrderWrites=false (default)",
 		"an owner that never answers is parked until WritePointsPrivileged has returned (WriteTimeout 20 ms); all other owners answer when their turn comes, never by the clock; when every owner answers WriteTimeout is 10 min. A timeout reported although the answering owners met the level is believed only on clock-free evidence: the writer's log shows it treated every counting owner as failed, or (after repeats with 400 ms and then 10 min) a goroutine dump shows the collecting goroutine blocked with every answering owner goroutine ended",
 		"arrival order: an owner's last double call returns in turn; an error answer is confirmed consumed through the writer's log before the next owner is released, a non-final success answer only gets a few scheduler yields (order then almost always, not provably, as intended; verdicts do not depend on it)",
@@ -323,6 +324,7 @@ func body() {
 	r.Count("goroutine_profile_inspections", atomic.LoadInt64(&profileDumps))
 	r.Count("goroutine_state_inspections", atomic.LoadInt64(&stackDumps))
 	pprof.StopCPUProfile()
+	wireSegment()
 	raceReports()
 	r.Finish()
 }
